@@ -61,6 +61,12 @@ Proof. exact (unescape_plain s). Qed.
 Theorem C17_option_text_escaped s : Forall (λ c, c < 256)%N s → unescape (escape s) = Some s.
 Proof. exact (unescape_escape s). Qed.
 
+(** On option strings without '%', '+' and ';' the decoding parser coincides with plain
+    splitting at '&' and the first '=' (the model before percent-decoding was added). *)
+Theorem C17_options_plain q : plain q → Dsn.parse_query q = parse_query_plain q.
+Proof. exact (parse_query_plain_eq q). Qed.
+
+Print Assumptions C17_options_plain.
 Print Assumptions C17_option_text_plain.
 Print Assumptions C17_option_text_escaped.
 Print Assumptions C17_cache_size_accepted.
